@@ -105,7 +105,7 @@ def replay(g, o, assigns, path):
 
 MANIFEST = {
     "category": "proof",
-    "text": "Scalar kernels (the stable Givens rotation with its Taylor branch, stable_norm3, the reflector mark nr) are proved loop-free over the FULL finite domain in binary32 (quick) and binary64 (thorough): no NaN, exact y==0 / x==0 cases with the documented signs, |c|,|s|<=1, sign conventions, no collapse (max(|c|,|s|)>=0.70), |.|_max <= r <= 1.5|.|_max. UNBOUNDED in n: TridiagQR::compute (band arrays, c/s pointer walks) and matrix_QtHQ (tridiagonal, exactly symmetric shape, also into a reused destination); on the cursor model of the raw pointer walks UpperHessenbergQR::compute (R exactly upper triangular), matrix_QtHQ (Q'HQ exactly upper Hessenberg), apply_YQ (memory safety), and DoubleShiftQR compute / update_block / apply_YQ / apply_QtY (every block, coefficient and pointer access inside the matrix, blocks partition 0..n-1, reflector record nr[q] in {1,2,3} with q + nr[q] <= n). BOUNDED at concrete n with full unwinding: the real flattened address arithmetic of the same kernels, and UpperHessenbergQR::apply_YQ as the EXACT product Y*G_0*...*G_{n-2} (uninterpreted arithmetic on both sides). Orthogonality and similarity to n*eps are numerical and NOT decided.",
+    "text": "Scalar kernels (the stable Givens rotation with its Taylor branch, stable_norm3, the reflector mark nr) are proved loop-free over the FULL finite domain in binary32 (quick) and binary64 (thorough): no NaN, exact y==0 / x==0 cases with the documented signs, |c|,|s|<=1, sign conventions, no collapse (max(|c|,|s|)>=0.70), |.|_max <= r <= 1.5|.|_max. UNBOUNDED in n: TridiagQR::compute (band arrays, c/s pointer walks) and matrix_QtHQ (tridiagonal, exactly symmetric shape, also into a reused destination); on the cursor model of the raw pointer walks UpperHessenbergQR::compute (R exactly upper triangular), matrix_QtHQ (Q'HQ exactly upper Hessenberg), apply_YQ (memory safety), and DoubleShiftQR compute / update_block / apply_YQ / apply_QtY (every block, coefficient and pointer access inside the matrix, blocks partition 0..n-1, reflector record nr[q] in {1,2,3} with q + nr[q] <= n). BOUNDED at concrete n with full unwinding: the real flattened address arithmetic of the same kernels, and UpperHessenbergQR::apply_YQ as the EXACT product Y*G_0*...*G_{n-2} (uninterpreted arithmetic on both sides). Orthogonality and similarity to n*eps are numerical and NOT decided. Third session: the computed-flag typestate of the decomposition classes used by the solvers is under contract (guard.coverage.* / guard.*: every public function that touches a result member starts with the m_computed guard, and the extracted guard throws std::logic_error exactly on an uncomputed object).",
     "note": "CBMC's IEEE model trusted; bounded groups are labelled with their bound in the evidence and never counted in obligations/discharged of the proof part",
     "technique": 'CBMC full-domain loop-free float proofs (kissat) + dfcc loop contracts on cursor models of the raw-pointer kernels (cadical) + bounded unwinding of the real address arithmetic at concrete n',
 }
